@@ -531,6 +531,18 @@ func Denote(s *Spec, raw any) (Tri, any) {
 			return verdict, nil
 		}
 		return Yes, out.Interface()
+	case KObject:
+		return DenoteObject(s, raw)
+	case KOneOfStr, KOneOfInt:
+		return DenoteOneOf(s, raw)
+	case KRef:
+		if s.resolved == nil {
+			return Unknown, nil
+		}
+		return Denote(s.resolved, raw)
+	case KScope:
+		Link(s)
+		return Denote(s.RootObject(), raw)
 	}
 	return Unknown, nil
 }
@@ -652,6 +664,48 @@ func denoteAny(raw any) (Tri, any) {
 func ValidNative(s *Spec, v any) Tri {
 	if v == nil {
 		return No
+	}
+	switch s.Kind {
+	case KRef:
+		if s.resolved == nil {
+			return Unknown
+		}
+		return ValidNative(s.resolved, v)
+	case KScope:
+		Link(s)
+		return ValidNative(s.RootObject(), v)
+	case KObject:
+		if s.Struct != "" {
+			return Unknown
+		}
+		return ValidNativeObject(s, v)
+	case KOneOfStr, KOneOfInt:
+		m, ok := v.(map[string]any)
+		if !ok {
+			return Unknown
+		}
+		d, has := m[s.Discriminator]
+		if !has {
+			return No
+		}
+		for i := range s.Members {
+			mem := &s.Members[i]
+			if (s.Kind == KOneOfStr && d == any(mem.KeyS)) || (s.Kind == KOneOfInt && d == any(mem.KeyI)) {
+				payload := map[string]any{}
+				for k, x := range m {
+					if k == s.Discriminator && !s.Inlined {
+						continue
+					}
+					payload[k] = x
+				}
+				return ValidNative(mem.Type, payload)
+			}
+		}
+		switch d.(type) {
+		case string, int64:
+			return No
+		}
+		return Unknown // discriminator of another Go type
 	}
 	if s.Kind != KAny && reflect.TypeOf(v) != NativeType(s) {
 		return Unknown
